@@ -728,6 +728,23 @@ def check_break_guard_scan(crate, pt, ef, rep, loop_edges, capt_edges):
             + ("" if ok else " — VIOLATED: " + "; ".join(why or ["scan idiom not recognised"])))
 
 
+def node_result_blocks(pt, tr):
+    """where a Break/Continue node becomes the parser's result: the block wrapping it in Some/Ok when the node itself was prepared earlier
+    as a plain value (`let node = if is_break { Break } else { Continue }` ahead of the test), else the block constructing it"""
+    out = set()
+    for v in ("Break", "Continue"):
+        for bb, idx, s0 in find_aggs(pt, "parsing::ast::Node", v):
+            wraps = set()
+            for b2, i2, st in pt.stmts():
+                if i2 != "t" and st.get("k") == "assign" and st["rv"]["k"] == "agg" and st["rv"].get("ak") == "adt" and \
+                        st["rv"].get("adt") in ("std::option::Option", "std::result::Result"):
+                    for op in st["rv"]["ops"]:
+                        if any(l.kind == "agg" and l.detail[3:5] == (bb, idx) and not l.projs for l in tr.operand(op)):
+                            wraps.add(b2)
+            out |= wraps or {bb}
+    return out
+
+
 def closure_true_set(crate, cb, adt_suffix):
     """variants of the enum for which a `|x| matches!(x, A | B)` closure returns true (None if the shape is not that)"""
     ef = EdgeFacts(cb, crate)
@@ -762,7 +779,7 @@ def check_break_guard_find(crate, pt, ef, rep):
                 cl = [st["rv"]["def"] for b2, i2, st in pt.stmts() if i2 != "t" and st.get("k") == "assign" and st["rv"]["k"] == "agg" and st["rv"].get("ak") == "closure"
                       and any(l.kind == "agg" and l.detail[-2:] == (b2, i2) for l in tr.operand(t["args"][1]))]
                 finds.append((bb, rev, cl))
-    jump_blocks = {bb for v in ("Break", "Continue") for bb, idx, s in find_aggs(pt, "parsing::ast::Node", v)}
+    jump_blocks = node_result_blocks(pt, tr)
     ok = len(finds) == 1 and bool(jump_blocks)
     why = "context search not recognised (%d find calls over BodyContext)" % len(finds)
     if ok:
